@@ -106,6 +106,7 @@ SPACE = _ranges_of(str.isspace)
 UPPER = _ranges_of(str.isupper)
 LOWER = _ranges_of(str.islower)
 LINEBREAK = _ranges_of(lambda ch: len(("a" + ch + "b").splitlines()) == 2)
+BYTES_LINEBREAK = [(10, 10), (13, 13)]
 IDSTART = _ranges_of(lambda ch: ch.isidentifier())
 IDCONT = _ranges_of(lambda ch: ("a" + ch).isidentifier())
 ASCII_ALNUM = [(48, 57), (65, 90), (97, 122)]
@@ -505,14 +506,14 @@ class SymStr:
         out.extend(self.cs[i:])
         return mkstr(out)
 
-    def splitlines(self, keepends=False):
+    def splitlines(self, keepends=False, _breaks=None):
         out = []
         i = 0
         n = len(self.cs)
         j = 0
         while j < n:
             c = self.cs[j]
-            if mkbool(_in_ranges(c, LINEBREAK)):
+            if mkbool(_in_ranges(c, LINEBREAK if _breaks is None else _breaks)):
                 eol = j + 1
                 if mkbool(_ceq(c, 13)) and j + 1 < n and mkbool(_ceq(self.cs[j + 1], 10)):
                     eol = j + 2
@@ -747,6 +748,10 @@ class SymBytes:
         if sep is None:
             raise Unsupported("bytes.split(None)")
         return self._out(self._v().split(self._arg(sep), maxsplit))
+
+    def splitlines(self, keepends=False):
+        # bytes.splitlines breaks at LF, CR and CRLF only (str.splitlines also at FF, VT, FS..RS, NEL, LS, PS)
+        return self._out(self._v().splitlines(keepends, _breaks=BYTES_LINEBREAK))
 
     def find(self, sub, start=None, end=None):
         return self._v().find(self._arg(sub), start, end)
